@@ -306,6 +306,14 @@ class Report:
         return p
 
     def violation(self, payload: dict, no_input=False):
+        # every violation is counted; replay files are written for the first 40 with a failing input and the
+        # first 10 without (a broken codec produces thousands of failing cases)
+        kind = "noinput" if no_input else "input"
+        self._written = getattr(self, "_written", {"input": 0, "noinput": 0})
+        if self._written[kind] >= (10 if no_input else 40):
+            self.violations.append((None, ""))
+            return
+        self._written[kind] += 1
         p = self.write_replay(payload)
         self.violations.append((p, " no-failing-input-found" if no_input else ""))
 
@@ -336,12 +344,18 @@ class Report:
             "violations": len(self.violations),
             "known_findings": self.known,
         }
-        (VERIF / "evidence").mkdir(exist_ok=True)
-        (VERIF / "evidence" / f"{self.id}.json").write_text(json.dumps(ev, indent=1, default=str))
+        # mutation trials (tools_seeded.py) redirect the evidence so that /verif/evidence keeps describing the real tree
+        evdir = Path(os.environ.get("VERIF_EVIDENCE_DIR") or (VERIF / "evidence"))
+        evdir.mkdir(parents=True, exist_ok=True)
+        (evdir / f"{self.id}.json").write_text(json.dumps(ev, indent=1, default=str))
         for k in self.known:
             print(f"KNOWN-FINDING: property={self.id} {k}")
-        for p, suffix in self.violations[:10]:
+        shown = [(p, sfx) for p, sfx in self.violations if p is not None]
+        shown.sort(key=lambda x: x[1] != "")  # concrete failing inputs first
+        for p, suffix in shown[:10]:
             print(f"VIOLATION property={self.id} replay={p.relative_to(VERIF)}{suffix}")
+        if len(self.violations) > 10:
+            print(f"({len(self.violations)} violating cases in total; replay files kept for {len(shown)})")
         sys.stdout.flush()
         return 1 if self.violations else 0
 
